@@ -32,6 +32,7 @@ type HsScenario struct {
 	VN           bool      `json:"vn,omitempty"`
 	Reject       bool      `json:"reject_0rtt,omitempty"`
 	Early        int       `json:"early,omitempty"` // bytes of early data on the resumed connection
+	Reply        int       `json:"reply,omitempty"` // bytes the server application answers a request with (0: "ok")
 	Inject       []WInject `json:"inject,omitempty"`
 	Token        string    `json:"token,omitempty"` // valid | rebound | expired | truncated | flipped | otherkey
 	AgeS         int64     `json:"age_s,omitempty"`
@@ -74,6 +75,12 @@ func genHs(seed uint64, tier string) KScenario {
 			// the Initial packets of the resumed connection's first flight are lost while its 0-RTT packets travel on:
 			// the ClientHello is only seen on a PTO retransmission (and, with Retry, answered by a Retry after that)
 			sc.Net.DropInitials, sc.Net.DropInitialsAfterMS = r.Pick(1, 2, 2, 3), 2500
+		}
+		if r.P(0.4) {
+			// 0.5-RTT data: the server wants to send much more than the handshake while the client's Handshake packets
+			// (the proof of its address) are lost
+			sc.Reply = r.Pick(3000, 20000, 60000)
+			sc.Net.DropHandshakes, sc.Net.DropHandshakesAfterMS = r.Pick(0, 1, 3, 6), 2500
 		}
 	case x < 8:
 		sc.Mode = "inject"
@@ -253,6 +260,7 @@ func runHs(t *testing.T, ksc KScenario, res *KResult) {
 		ampRcvd     = map[string]int64{} // bytes delivered to the server, per client address
 		ampSent     = map[string]int64{}
 		ampValid    = map[string]bool{}
+		ampEpoch    int    // connections the wiretap knew when the current dial began: their datagrams are not this dial's
 		tokenValid  = true // ground truth for the token the client presents (token mode)
 		presented   []byte // that token
 		ampViolated bool
@@ -266,6 +274,29 @@ func runHs(t *testing.T, ksc KScenario, res *KResult) {
 		ampMu.Lock()
 		defer ampMu.Unlock()
 		addr := w.lastClientAddrFor(rec)
+		// Stragglers of an earlier dial are not part of this one: the closing period of an earlier connection answering a
+		// delayed packet, or a connection that a delayed copy of an Initial had created at the server being refused when the
+		// listener closes. They are recognised by (a) the wiretap attributing every packet to a connection that existed before
+		// this dial began (an attribution to a connection of another client address is a guess made for zero-length
+		// connection IDs and does not count), (b) no packet of the datagram being readable with any keys the wiretap holds
+		// for this dial's connections, or (c) nothing having arrived from that address since this dial began.
+		old := false
+		if ampEpoch > 0 && len(rec.Pkts) > 0 {
+			earlier, unreadable := true, true
+			for _, p := range rec.Pkts {
+				if !(p.Conn != nil && p.Conn.ClientAddr == rec.Client && p.Conn.ID < ampEpoch) {
+					earlier = false
+				}
+				if p.Opened {
+					unreadable = false
+				}
+			}
+			old = earlier || unreadable || ampRcvd[addr] == 0
+		}
+		if old {
+			res.Probe("amp-datagram-of-an-earlier-connection")
+			return
+		}
 		if !ampValid[addr] && ampSent[addr] >= 3*ampRcvd[addr] && !ampViolated {
 			ampViolated = true
 			sig := "server sent to an unvalidated address although it had already sent three times the bytes received from it"
@@ -282,6 +313,18 @@ func runHs(t *testing.T, ksc KScenario, res *KResult) {
 			}
 			if onlyClose {
 				sig += " (a CONNECTION_CLOSE datagram)"
+			}
+			if os.Getenv("VERIF_DUMP_AMP") != "" {
+				for d := 0; d < 2; d++ {
+					for _, r := range w.Log[d] {
+						cid := -1
+						if len(r.Pkts) > 0 && r.Pkts[0].Conn != nil {
+							cid = r.Pkts[0].Conn.ID
+						}
+						res.Logf("amp: dir %d #%d at %d client=%s size=%d conn=%d delivered=%v %v", d, r.Ord, r.SentNS/1000, r.Client, r.Size, cid, r.Delivered, r.Pkts)
+					}
+				}
+				res.Logf("amp: epoch %d", ampEpoch)
 			}
 			report("C14", sig, "to %s: sent %d, received %d, now sending %d more (%v)", addr, ampSent[addr], ampRcvd[addr], rec.Size, rec.Pkts)
 		}
@@ -406,6 +449,14 @@ func runHs(t *testing.T, ksc KScenario, res *KResult) {
 	var earlyMu sync.Mutex
 
 	dial := func(idx int, earlyDial bool, horizon time.Duration) *hsDialResult {
+		// address validation is a matter of one connection: what an earlier connection from the same address received, sent
+		// and proved says nothing about this one (the earlier one has ended and drained by now)
+		ampMu.Lock()
+		clear(ampRcvd)
+		clear(ampSent)
+		clear(ampValid)
+		ampEpoch = len(w.Tap.Conns)
+		ampMu.Unlock()
 		r := &hsDialResult{}
 		before := len(w.Tap.Conns)
 		ctx, cancel := context.WithTimeout(context.Background(), horizon)
@@ -451,7 +502,11 @@ func runHs(t *testing.T, ksc KScenario, res *KResult) {
 						earlyMu.Lock()
 						earlyGot = append(earlyGot, b)
 						earlyMu.Unlock()
-						s.Write([]byte("ok"))
+						if sc.Reply > 0 {
+							s.Write(wPayload(KMix(sc.Seed, 0x4e91), 0, sc.Reply))
+						} else {
+							s.Write([]byte("ok"))
+						}
 						s.Close()
 					}
 				}()
